@@ -7,6 +7,8 @@
 -/
 import Plonk.Proofs.SoundnessCount
 import Plonk.Proofs.SoundnessExamples
+import Plonk.Proofs.SoundnessWitness
+import Plonk.Proofs.SoundnessVerifier
 
 namespace Plonk.Sound
 open Polynomial Plonk Plonk.Quot Plonk.Perm
@@ -141,5 +143,50 @@ theorem ex_good_beta_gamma : ∃ β γ, β ∉ betaBad (-1) (2 ^ 1) exLay2 exP2 
 theorem ex_soundness_struct : (1 ≤ 32) ∧ exLay2.gates.size ≤ 2 ^ 1 ∧
     IsPrimitiveRoot (-1 : F) (2 ^ 1) :=
   ⟨by omega, by decide, by simpa using neg_one_primitive⟩
+
+/-- the instance layout is well formed: all wires allocated, the last row is an arithmetic row -/
+theorem exLay2_wf : LayoutWF exLay2 where
+  alloc := by
+    intro p h1 h2
+    obtain ⟨c, i⟩ := p
+    have hi : i < 2 := h2
+    have hc : c < 4 := h1
+    interval_cases i <;> interval_cases c <;> decide +kernel
+  lastPlain := by
+    intro i hi
+    have : i = 1 := by
+      have : exLay2.gates.size = 2 := rfl
+      omega
+    subst this
+    exact ⟨rfl, rfl, rfl, rfl⟩
+
+theorem exLay2_padded : exLay2.paddedSize = 2 ^ 1 := by decide
+
+/-! ### an instance for the verifier link: every commitment is interpreted as the constant `7` -/
+
+noncomputable def exP3 : ProverPolys F :=
+  { Q := ⟨C 7, C 7, C 7, C 7, C 7, C 7, C 7, C 7, C 7, C 7, C 7⟩
+    a := C 1, b := C 2, c := C 3, d := C 4, pi := 0
+    s1 := C 5, s2 := C 5, s3 := C 5, s4 := C 7, z := C 7 }
+
+def exEv3 : Evals :=
+  { a := 1, b := 2, c := 3, d := 4, aw := 1, bw := 2, dw := 4, qarith := 7, qc := 7, ql := 7, qr := 7,
+    s1 := 5, s2 := 5, s3 := 5, z := 7 }
+
+theorem ex_agmRep (k : VKey) (p : ProofM) : AgmRep (fun _ => C 7) k p exP3 :=
+  ⟨rfl, rfl, rfl, rfl, rfl, rfl, rfl, rfl, rfl, rfl, rfl, rfl⟩
+
+theorem ex_trueEvals : TrueEvals (-1) (toF 5) exEv3 exP3 := by
+  constructor <;> simp [exEv3, exP3, toF]
+
+theorem ex_verifier_side : toF 24 = toF 5 ^ 2 - 1 ∧ toF 3 = (L1P 2).eval (toF 5) ∧
+    toF 0 = exP3.pi.eval (toF 5) := by
+  refine ⟨by simp [toF]; norm_num, ?_, by simp [exP3]⟩
+  rw [eval_L1P]
+  simp only [toF, Nat.cast_ofNat, Finset.sum_range_succ, Finset.sum_range_zero, pow_zero, pow_one,
+    zero_add]
+  have h2 := two_ne_zero_F
+  field_simp
+  norm_num
 
 end Plonk.Sound
